@@ -777,11 +777,17 @@ func c11Proposals(c *core.Ctx) {
 			k.Violate("panic", "ike-proposal: "+pn.Sig(), "panic", panicData(pn, nil))
 		}
 	})
-	c.Family("child-proposals", 3*4*3*2, func(k *core.Case) {
+	c.Family("child-proposals", 3*4*3*2*2, func(k *core.Case) {
 		e, i, d, es := k.Index%3, (k.Index/3)%4, (k.Index/12)%3, (k.Index/36)%2
 		k.Eval(1)
 		pn := core.Try(func() {
 			src := newChild(e, i)
+			if k.Index/72%2 == 1 {
+				// the descriptor the application holds for this algorithm is the one it looked up BY NAME (the advertised
+				// set): the same algorithm, the same key length
+				src.EncrKInfo = encr.StrToType(libsa.EncrNames[[]int{16, 24, 32}[e]])
+				k.Count("child_sa_encryption_descriptor_looked_up_by_name", 1)
+			}
 			src.DhInfo = nil // (newChild varies the fields a derivation must not depend on; here the proposal content is the subject)
 			if d > 0 {
 				src.DhInfo = dh.StrToType(libsa.DhNames[d-1])
